@@ -302,10 +302,11 @@ def normalize_url(
     # Normalizing the path
     if path:
         trailing_slash = False
-        if path.endswith("/") and len(path) > 1:
+        # NOTE: a final dot segment resolves to a trailing slash
+        if path.endswith(("/", "/.", "/..")) and len(path) > 1:
             trailing_slash = True
         path = normpath(path)
-        if trailing_slash and not strip_trailing_slash:
+        if trailing_slash and not strip_trailing_slash and path:
             path = path + "/"
 
     # Handling Google AMP suffixes
